@@ -750,6 +750,9 @@ def flatten_conditionals(fn: ast.AST) -> None:
             canonical_tests(fn)
 
 
+_FOLD_OPS = {ast.Add: 'add', ast.BitXor: 'xor', ast.BitOr: 'or_', ast.BitAnd: 'and_', ast.Mult: 'mul'}
+
+
 def loops_to_comprehensions(fn: ast.AST) -> None:
     """``acc = []`` ; ``for T in IT: [if C:] acc.append(E)``  ->  ``acc = [E for T in IT if C]`` (likewise set()/add and
     {} / acc[K] = V), provided the loop variables are not used afterwards, the loop has no else arm, and E/C do not read acc."""
@@ -773,6 +776,8 @@ def loops_to_comprehensions(fn: ast.AST) -> None:
                     kind = 'set'
                 elif (isinstance(v, ast.Dict) and not v.keys) or (isinstance(v, ast.Call) and isinstance(v.func, ast.Name) and v.func.id == 'dict' and not v.args and not v.keywords):
                     kind = 'dict'
+                elif isinstance(v, ast.Constant) and type(v.value) is int:
+                    kind = 'fold'  # acc = 0 ; for ..: acc += E   (an int start value: the in-place operator is the plain one)
                 if kind is None:
                     continue
                 gens = []
@@ -793,6 +798,13 @@ def loops_to_comprehensions(fn: ast.AST) -> None:
                     comp = (ast.ListComp if kind == 'list' else ast.SetComp)(elt=elt, generators=gens)
                 elif kind == 'dict' and isinstance(cur, ast.Assign) and len(cur.targets) == 1 and isinstance(cur.targets[0], ast.Subscript) and isinstance(cur.targets[0].value, ast.Name) and cur.targets[0].value.id == acc:
                     comp = ast.DictComp(key=cur.targets[0].slice, value=cur.value, generators=gens)
+                elif kind == 'fold' and isinstance(cur, ast.AugAssign) and isinstance(cur.target, ast.Name) and cur.target.id == acc and type(cur.op) in _FOLD_OPS:
+                    gen = ast.GeneratorExp(elt=cur.value, generators=gens)
+                    if isinstance(cur.op, ast.Add):
+                        # sum() adds from the left starting at its start value, like the loop does
+                        comp = ast.Call(func=ast.Name(id='sum', ctx=ast.Load()), args=[gen] + ([] if v.value == 0 else [v]), keywords=[])
+                    else:
+                        comp = ast.Call(func=ast.Attribute(value=ast.Name(id='functools', ctx=ast.Load()), attr='reduce', ctx=ast.Load()), args=[ast.Attribute(value=ast.Name(id='operator', ctx=ast.Load()), attr=_FOLD_OPS[type(cur.op)], ctx=ast.Load()), gen, v], keywords=[])
                 if comp is None or not gens:
                     continue
                 inner_names = set()
@@ -949,6 +961,7 @@ def inline_temporaries(fn: ast.AST, only: typing.Optional[set] = None, sigs: typ
     Returns whether something was inlined."""
     params = _params(fn)
     bound: dict = {}
+    shadows: dict = {}
     comp_targets = {id(x) for n in ast.walk(fn) if isinstance(n, ast.comprehension) for x in ast.walk(n.target)}
     for n in ast.walk(fn):
         if n is fn:
@@ -956,7 +969,8 @@ def inline_temporaries(fn: ast.AST, only: typing.Optional[set] = None, sigs: typ
         if isinstance(n, FUNC):
             for a in ast.walk(n.args):
                 if isinstance(a, ast.arg):
-                    bound[a.arg] = bound.get(a.arg, 0) + 2
+                    # a parameter of a nested function is a variable of that function: it shadows, it does not re-bind
+                    shadows.setdefault(a.arg, []).append(n)
             bound[n.name] = bound.get(n.name, 0) + 1
         if isinstance(n, ast.Name) and isinstance(n.ctx, (ast.Store, ast.Del)) and id(n) not in comp_targets:
             bound[n.id] = bound.get(n.id, 0) + 1
@@ -993,7 +1007,10 @@ def inline_temporaries(fn: ast.AST, only: typing.Optional[set] = None, sigs: typ
             if x in _names(v):
                 continue
             is_stable = stable(v)
-            uses = [n for n in ast.walk(fn) if isinstance(n, ast.Name) and n.id == x and isinstance(n.ctx, ast.Load)]
+            hidden = {id(y) for d in shadows.get(x, []) for y in ast.walk(d)}
+            if hidden and any(isinstance(y, ast.Name) and y.id == x and isinstance(y.ctx, (ast.Store, ast.Del)) and id(y) in hidden for y in ast.walk(fn)):
+                continue
+            uses = [n for n in ast.walk(fn) if isinstance(n, ast.Name) and n.id == x and isinstance(n.ctx, ast.Load) and id(n) not in hidden]
             if not uses:
                 if (isinstance(v, ast.Lambda) or _is_name_pure(v)) and bound.get(x, 0) == 1 and not any(isinstance(n, (ast.Global, ast.Nonlocal)) and x in n.names for n in ast.walk(fn)):
                     del seq[i]  # a function object / plain value bound to a name nobody reads
@@ -2159,6 +2176,15 @@ class SignatureIndex:
         for simple, nodes in classes.items():
             for node in nodes:
                 self.by_name.setdefault(simple, []).append(self._ctor(node, classes, 0))
+        # class simple name -> constructor parameters of what ``super()`` reaches from it (its bases only), when unambiguous
+        self.base_ctor: dict = {}
+        for simple, nodes in classes.items():
+            found = []
+            for node in nodes:
+                shell = ast.ClassDef(name=simple, bases=node.bases, keywords=[], body=[st for st in node.body if not (isinstance(st, FUNC) and st.name in ('__new__', '__init__'))], decorator_list=[])
+                found.append(self._ctor(shell, classes, 0))
+            if found and found[0] and all(g == found[0] for g in found):
+                self.base_ctor[simple] = found[0]
         self.by_module: dict = {}  # (module name, top-level simple name) -> parameters (packages re-exporting: see lookup)
         for mod in modules_list:
             for qual, node in mod.defs.items():
@@ -2290,6 +2316,16 @@ def positional_arguments(fn: ast.AST, sigs: typing.Optional[SignatureIndex], own
         if simple is None:
             continue
         cands = sigs.by_name.get(simple)
+        lead = 0
+        if owner and isinstance(f, ast.Attribute) and f.attr in ('__new__', '__init__') and isinstance(f.value, ast.Call) and isinstance(f.value.func, ast.Name) and f.value.func.id == 'super' and not f.value.args:
+            # super().__new__(cls, a=.., b=..) / super().__init__(a=..): the constructor of the bases of the method's class
+            base = getattr(sigs, 'base_ctor', {}).get(owner)
+            cands = [base] if base else None
+            lead = 1 if f.attr == '__new__' else 0
+            if cands and len(n.args) < lead:
+                cands = None
+            if cands:
+                cands = [['cls'] * lead + list(cands[0])]
         if isinstance(f, ast.Attribute) and isinstance(f.value, ast.Name) and f.value.id in _ACTIVE_IMPORTS:
             hit = sigs.by_module.get((_ACTIVE_IMPORTS[f.value.id], f.attr))
             if hit is not None:
@@ -2300,7 +2336,13 @@ def positional_arguments(fn: ast.AST, sigs: typing.Optional[SignatureIndex], own
             continue
         # same-named callables: only those that know every keyword of this call can be meant
         used = {k.arg for k in n.keywords if k.arg is not None}
-        cands = [c for c in cands if c is None or (used <= set(c) and len(c) >= len(n.args) + len(used))]
+        if not lead and not (isinstance(f, ast.Attribute) and f.attr == '__init__' and isinstance(f.value, ast.Call)):
+            cands = [c for c in cands if c is None or (used <= set(c) and len(c) >= len(n.args) + len(used))]
+        else:
+            # the one constructor super() reaches: keywords it does not name go to its **kwargs; only the leading keywords that
+            # continue its positional parameters are converted
+            known = [k for k in n.keywords if k.arg in cands[0]]
+            n.keywords[:] = known + [k for k in n.keywords if k not in known] if all(not (_has_call(k.value) or any(_has_effect(x) for x in ast.walk(k.value))) for k in n.keywords) else n.keywords
         if not cands or any(c is None for c in cands):
             continue
         if all(k.arg is not None for k in n.keywords) and not any(_has_call(a) or any(_has_effect(x) for x in ast.walk(a)) for a in n.args) and not any(_has_call(k.value) or any(_has_effect(x) for x in ast.walk(k.value)) for k in n.keywords):
@@ -2586,6 +2628,72 @@ def undo_import_aliases(mod) -> list:
     return done
 
 
+def _undo_attribute_renames(ref_tree: ast.AST, cur_tree: ast.AST) -> list:
+    """A private instance attribute (``self._x``) of a class of the reference tree that is gone, while a new private attribute
+    of the same class occurs at exactly the same places (same methods, same sequence of loads and stores), was renamed: it
+    gets its reference name back everywhere in that class.  Returns [(new name, 'Class._old')]."""
+    def classes(tree: ast.AST) -> dict:
+        out: dict = {}
+
+        def visit(n: ast.AST, prefix: str) -> None:
+            for c in ast.iter_child_nodes(n):
+                if isinstance(c, ast.ClassDef):
+                    out[prefix + c.name] = c
+                    visit(c, prefix + c.name + '.')
+                elif isinstance(c, FUNC):
+                    visit(c, prefix + c.name + '.')
+                else:
+                    visit(c, prefix)
+
+        visit(tree, '')
+        return out
+
+    def own_nodes(cls: ast.ClassDef):
+        stack = list(ast.iter_child_nodes(cls))
+        while stack:
+            n = stack.pop()
+            if isinstance(n, ast.ClassDef):
+                continue
+            yield n
+            stack.extend(ast.iter_child_nodes(n))
+
+    def private_attrs(cls: ast.ClassDef) -> set:
+        return {x.attr for x in own_nodes(cls) if isinstance(x, ast.Attribute) and isinstance(x.value, ast.Name) and x.value.id in ('self', 'cls') and x.attr.startswith('_') and not x.attr.startswith('__')}
+
+    def signature(cls: ast.ClassDef, attr: str) -> tuple:
+        out = []
+        for fn in sorted((f for f in cls.body if isinstance(f, FUNC)), key=lambda f: f.name):
+            seq = tuple(type(x.ctx).__name__ for x in ast.walk(fn) if isinstance(x, ast.Attribute) and x.attr == attr)
+            if seq:
+                out.append((fn.name, seq))
+        return tuple(out)
+
+    done = []
+    refc, curc = classes(ref_tree), classes(cur_tree)
+    for q, rc in refc.items():
+        cc = curc.get(q)
+        if cc is None:
+            continue
+        gone = sorted(private_attrs(rc) - private_attrs(cc))
+        new = sorted(private_attrs(cc) - private_attrs(rc))
+        if not gone or not new:
+            continue
+        methods_cur = {f.name for f in cc.body if isinstance(f, FUNC)} | {t.id for st in cc.body if isinstance(st, (ast.Assign, ast.AnnAssign)) for t in (st.targets if isinstance(st, ast.Assign) else [st.target]) if isinstance(t, ast.Name)}
+        for g in gone:
+            want = signature(rc, g)
+            same = [n for n in new if signature(cc, n) == want]
+            if len(same) != 1 or not want or g in methods_cur:
+                continue
+            if any(isinstance(x, ast.Attribute) and x.attr == g for x in own_nodes(cc)):
+                continue
+            for x in own_nodes(cc):
+                if isinstance(x, ast.Attribute) and x.attr == same[0]:
+                    x.attr = g
+            new.remove(same[0])
+            done.append((same[0], f'{q}.{g}'))
+    return done
+
+
 def undo_renames(mod, sigs: typing.Optional[SignatureIndex] = None) -> list:
     """A function of the reference tree that is gone while a new function of the *same scope* has the same normal form
     (its own name aside) was renamed: it gets its reference name back, together with every reference to the new name in the
@@ -2604,8 +2712,9 @@ def undo_renames(mod, sigs: typing.Optional[SignatureIndex] = None) -> list:
     cur = _all_functions(mod.tree)
     vanished = [q for q in ref if q not in cur]
     fresh = [q for q in cur if q not in ref]
+    attrs = _undo_attribute_renames(ref_tree, mod.tree)
     if not vanished or not fresh:
-        return []
+        return attrs
 
     def anonymous(node: ast.AST) -> str:
         clone = ast.parse(ast.unparse(node)).body[0]
@@ -2644,7 +2753,7 @@ def undo_renames(mod, sigs: typing.Optional[SignatureIndex] = None) -> list:
                 pass
         fresh.remove(same[0])
         done.append((new_name, v))
-    return done
+    return done + attrs
 
 
 def substitute_equivalent(mod, sigs: typing.Optional[SignatureIndex] = None) -> list:
